@@ -2,9 +2,9 @@
    independently of the model's loop structure. *)
 From BW Require Export Case.
 
-(* a '\n'-separated segment is non-blank when it holds a non-whitespace character *)
+(* a line is non-blank when it holds a non-whitespace character *)
 Definition seg_nonblank (l : str) : bool := existsb (fun c => negb (is_ws c)) l.
-Definition spec_count (content : str) : N := nlen (filter seg_nonblank (split_on 10 content)).
+Definition spec_count (content : str) : N := nlen (filter seg_nonblank (lines content)).
 
 (* the attribute value printed from (op, n) with arbitrary whitespace *)
 Definition print_constraint (w1 w2 w3 : str) (op : cop) (n : N) : str :=
